@@ -13,7 +13,7 @@ import warnings
 import numpy as np
 import z3
 
-from ..sym import Stats, SymReal, explore, term
+from ..sym import Stats, SymReal, const, explore, term
 
 META = dict(
     functions=['photutils.isophote.geometry:EllipseGeometry.update_sma',
@@ -81,6 +81,146 @@ def _run_growth(case):
             samples.append(dict(linear=linear, up=str(up)[:60]))
 
     _, st, f = explore(fn)
+    return dict(stats=st, findings=f, samples=samples, nontrivial=cnt['n'])
+
+
+
+# ---------------------------------------------------------------- growth loops (SYM)
+class _FakeSample:
+    def __init__(self, geometry):
+        self.geometry = geometry
+        self.values = None
+
+    def update(self, fixed=None):
+        pass
+
+
+class _FakeIso:
+    """Stand-in for Isophote: carries the requested sma and a stop code."""
+
+    def __init__(self, sample, niter, valid, stop_code):
+        self.sample = sample
+        self.niter = niter
+        self.valid = valid
+        self.stop_code = stop_code
+
+    @property
+    def sma(self):
+        return self.sample.geometry.sma
+
+    def fix_geometry(self, other):
+        g, o = self.sample.geometry, other.sample.geometry
+        g.eps, g.pa, g.x0, g.y0 = o.eps, o.pa, o.x0, o.y0
+
+    def __lt__(self, other):
+        return self.sma < other.sma
+
+    def __gt__(self, other):
+        return self.sma > other.sma
+
+
+def _run_loops(case):
+    """Ellipse.fit_image's outward / inward growth loops with fit_isophote
+    replaced by a stub that appends an isophote at the requested sma with a
+    solver-chosen stop code: list bookkeeping for every stop-code sequence."""
+    from .. import facade
+    facade.install()
+    import photutils.isophote.ellipse as pe
+    from photutils.isophote import Ellipse, EllipseGeometry
+    linear = case['linear']
+    nmax = case['nmax']
+    cnt = dict(n=0)
+    samples = []
+    pe.Isophote = _FakeIso
+
+    def fn(ctx):
+        sma0 = ctx.real('sma0')
+        maxsma = ctx.real('maxsma')
+        minsma = ctx.real('minsma')
+        if linear:
+            step = ctx.real('step')
+            ctx.assume(z3.And(step.e >= z3.Q(1, 2), step.e <= 3))
+            up = lambda s, k: s + k * step.e          # noqa
+        else:
+            stepv = ctx.choice('stepv', [0.1, 0.5])
+            step = stepv
+            from fractions import Fraction
+            f = Fraction(stepv) + 1
+            up = lambda s, k: s * z3.RealVal(f ** k)  # noqa
+        # bounds on the number of outward / inward steps (loop unrolling)
+        ctx.assume(z3.And(sma0.e >= 2, sma0.e <= 20, minsma.e >= 0,
+                          minsma.e < sma0.e, maxsma.e > sma0.e,
+                          up(sma0.e, nmax) >= maxsma.e))
+        if linear:
+            ctx.assume(sma0.e - nmax * step.e <= z3.If(minsma.e > z3.Q(1, 2),
+                                                       minsma.e, z3.Q(1, 2)))
+        else:
+            ctx.assume(up(sma0.e, -nmax) <= z3.If(minsma.e > z3.Q(1, 2),
+                                                  minsma.e, z3.Q(1, 2)))
+        img = np.zeros((8, 8))
+        geo = EllipseGeometry(4.0, 4.0, 3.0, 0.2, 0.3, linear_growth=linear)
+        ell = Ellipse(img, geo)
+        codes = []
+
+        def fit_isophote(sma, step=0.1, *a, going_inwards=False,
+                         isophote_list=None, noniterate=False, **k):
+            g = EllipseGeometry(4.0, 4.0, 3.0, 0.2, 0.3,
+                                linear_growth=linear)
+            # the real fit_isophote treats sma <= 0 as the central pixel
+            if not isinstance(sma, (int, float)) and bool(sma <= 0):
+                sma = 0.0
+            g.sma = sma
+            if len(codes) >= 2 * nmax + 4:
+                raise RuntimeError('loop did not terminate within the bound')
+            pool = [0, 2, 4, 5, -1, 1] if not going_inwards else [0, 2, 3,
+                                                                  5, -1]
+            code = ctx.choice(f'code{len(codes)}', pool) if case.get(
+                'codes') else 0
+            codes.append((going_inwards, code))
+            iso = _FakeIso(_FakeSample(g), 1, True, code)
+            isophote_list.append(iso)
+            return iso
+        ell.fit_isophote = fit_isophote
+        with warnings.catch_warnings():
+            warnings.simplefilter('ignore')
+            try:
+                res = ell.fit_image(sma0=sma0, minsma=minsma, maxsma=maxsma,
+                                    step=step, linear=linear)
+            except RuntimeError as e:
+                ctx.stats.obligations += 1
+                ctx.stats.sat += 1
+                ctx.find('loops:nontermination', str(e), ctx.witness(),
+                         params=dict(kind='loops', linear=linear))
+                return
+        cnt['n'] += 1
+        smas = [term(const(i.sma)) for i in res._list]
+        conds = []
+        for a, b in zip(smas, smas[1:]):
+            conds.append(a < b)
+        if case.get('twin'):
+            conds.append(z3.BoolVal(len(smas) < 2))
+        # range: nothing beyond one growth step past maxsma; the starting
+        # ellipse is part of a non-empty result
+        for v in smas:
+            conds.append(v < maxsma.e)
+            conds.append(v >= 0)
+        if smas:
+            conds.append(z3.Or([v == sma0.e for v in smas]))
+        r, m = ctx.holds(z3.And(conds), 'list')
+        if r == 'sat':
+            ctx.find('loops:list', f'isophote list (stop codes {codes}) is '
+                     'not strictly increasing in sma / leaves the requested '
+                     'range / lost the starting ellipse', ctx.witness(m),
+                     params=dict(kind='loops', linear=linear,
+                                 step=None if linear else step))
+        if len(samples) < 2:
+            samples.append(dict(linear=linear, n=len(smas), codes=codes))
+
+    try:
+        _, st, f = explore(fn)
+    finally:
+        from photutils.isophote.isophote import Isophote
+        pe.Isophote = Isophote
     return dict(stats=st, findings=f, samples=samples, nontrivial=cnt['n'])
 
 
@@ -290,14 +430,21 @@ def _run_fit(case):
 
 
 def run_case(case):
-    return dict(growth=_run_growth, polar=_run_polar,
-                fit=_run_fit)[case['kind']](case)
+    return dict(growth=_run_growth, polar=_run_polar, fit=_run_fit,
+                loops=_run_loops)[case['kind']](case)
 
 
 def cases(tier, seed):
     cs = [dict(kind='growth', name='growth-update-reset'),
           dict(kind='growth', name='growth-twin', twin=True),
           dict(kind='polar', name='to_polar-scalar-vs-array')]
+    for lin in (True, False):
+        cs.append(dict(kind='loops', name=f'loops-linear{lin}-codes',
+                       linear=lin, nmax=2, codes=True))
+        cs.append(dict(kind='loops', name=f'loops-linear{lin}-long',
+                       linear=lin, nmax=4 if tier == 'quick' else 6))
+    cs.append(dict(kind='loops', name='loops-twin', linear=True, nmax=2,
+                   twin=True))
     for fr in FRAMES:
         cs.append(dict(kind='fit', name=f'fit-{fr}', frame=fr))
     cs.append(dict(kind='fit', name='fit-square-fix', frame='square',
@@ -326,6 +473,24 @@ def replay(f):
         except Exception as e:  # noqa
             msg = f'raised {e!r}'
         return msg is not None, str(msg)
+    if p['kind'] == 'loops':
+        # replay the growth parameters with the real fitter on a galaxy
+        from photutils.isophote import Ellipse, EllipseGeometry
+        w = f['witness']
+        img, (x0, y0) = _galaxy('square', 0.2, 0.3, 'gauss')
+        sma0 = float(w['sma0'])
+        step = float(w['step']) if p['linear'] else float(p['step'])
+        with warnings.catch_warnings():
+            warnings.simplefilter('ignore')
+            iso = Ellipse(img, EllipseGeometry(
+                x0, y0, sma0, 0.2, 0.3, linear_growth=p['linear'])).fit_image(
+                sma0=sma0, minsma=float(w['minsma']),
+                maxsma=float(w['maxsma']), step=step, linear=p['linear'])
+        sm = np.asarray(iso.sma)
+        bad = len(sm) > 1 and not np.all(np.diff(sm) > 0)
+        bad = bad or np.any(sm >= float(w['maxsma'])) or np.any(sm < 0)
+        return bool(bad), f'sma0={sma0} step={step} minsma={w["minsma"]} ' \
+                          f'maxsma={w["maxsma"]} linear={p["linear"]} -> {sm}'
     from photutils.isophote import EllipseGeometry
     w = f['witness']
     g = EllipseGeometry(10.0, 10.0, float(w['sma']), 0.2, 0.3,
